@@ -379,9 +379,32 @@ pub struct JoinDropper {
     pub thread: Option<std::thread::JoinHandle<()>>,
 }
 
+/// how the join handle is dropped
+#[derive(Clone, Copy, Debug, PartialEq, Eq)]
+pub enum DropHow {
+    /// plain `drop(handle)`
+    Plain,
+    /// dropped by an unwinding panic that is caught (`catch_unwind`) on the dropping thread
+    Unwind,
+    /// owned by a spawned thread that panics; that thread is then joined
+    PanickingThread,
+}
+
+/// drop `v` while the current thread is unwinding from a panic (caught here); the panic hook is not run
+pub fn drop_while_unwinding<T>(v: T) {
+    let _ = std::panic::catch_unwind(std::panic::AssertUnwindSafe(move || {
+        let _owned = v;
+        std::panic::resume_unwind(Box::new("verif: unwinding drop"));
+    }));
+}
+
 impl JoinDropper {
     /// starts the drop and waits (up to `wait`) until it has begun
     pub fn start(join: BackgroundQueueJoinHandle, wait: Duration) -> JoinDropper {
+        Self::start_how(join, wait, DropHow::Plain)
+    }
+
+    pub fn start_how(join: BackgroundQueueJoinHandle, wait: Duration, how: DropHow) -> JoinDropper {
         let returned = Arc::new(AtomicBool::new(false));
         let begun = Arc::new(AtomicBool::new(false));
         let (r2, b2) = (returned.clone(), begun.clone());
@@ -389,7 +412,22 @@ impl JoinDropper {
             .name("verif-joindrop".into())
             .spawn(move || {
                 let b3 = b2.clone();
-                tracing::subscriber::with_default(FirstEvent(b2), move || drop(join));
+                match how {
+                    DropHow::Plain => tracing::subscriber::with_default(FirstEvent(b2), move || drop(join)),
+                    DropHow::Unwind => tracing::subscriber::with_default(FirstEvent(b2), move || drop_while_unwinding(join)),
+                    DropHow::PanickingThread => {
+                        let inner = std::thread::Builder::new()
+                            .name("verif-joindrop-panics".into())
+                            .spawn(move || {
+                                tracing::subscriber::with_default(FirstEvent(b2), move || {
+                                    let _owned = join;
+                                    std::panic::resume_unwind(Box::new("verif: thread owning the join handle panics"));
+                                })
+                            })
+                            .unwrap();
+                        let _ = inner.join();
+                    }
+                }
                 b3.store(true, Ordering::SeqCst);
                 r2.store(true, Ordering::SeqCst);
             })
@@ -417,4 +455,84 @@ impl JoinDropper {
         }
         true
     }
+}
+
+// ------------------------------------------------------------------------------------------------
+// every public way of attaching a metrics recorder to the queue (C09: where does the overflow count go?)
+
+#[derive(Clone, Copy, Debug, PartialEq, Eq)]
+pub enum Route {
+    /// `metrics_recorder_local::<dyn metrics::Recorder, _>(rec)`
+    Local,
+    /// `metrics_recorder_global::<dyn metrics::Recorder>()`: whatever recorder is current at each call
+    Global,
+    /// `metrics_recorder_local(rec)` and then the deprecated `metric_recorder(None)`: no recorder at all
+    LocalThenNone,
+    /// the deprecated `metric_recorder(None)` and then `metrics_recorder_global`
+    NoneThenGlobal,
+}
+
+impl Route {
+    pub fn name(self) -> &'static str {
+        match self {
+            Route::Local => "local",
+            Route::Global => "global",
+            Route::LocalThenNone => "local-then-none",
+            Route::NoneThenGlobal => "none-then-global",
+        }
+    }
+    pub fn uses_current_recorder(self) -> bool {
+        matches!(self, Route::Global | Route::NoneThenGlobal)
+    }
+}
+
+/// builds a gated queue (quiet flush interval) with the given recorder route; `local` is the recorder
+/// handed to `metrics_recorder_local` where the route uses one
+#[allow(deprecated)]
+pub fn build_route(kind: Kind, cap: usize, route: Route, local: CountRecorder) -> (Handle, BackgroundQueueJoinHandle, Arc<GateShared>) {
+    let gate = Arc::new(GateShared::default());
+    let b = BackgroundQueueBuilder::new().capacity(cap).flush_interval(Duration::from_secs(50)).thread_name("verif-queue-rec");
+    let b = match route {
+        Route::Local => b.metrics_recorder_local::<dyn metrics_024::Recorder, _>(local),
+        Route::Global => b.metrics_recorder_global::<dyn metrics_024::Recorder>(),
+        Route::LocalThenNone => b.metrics_recorder_local::<dyn metrics_024::Recorder, _>(local).metric_recorder(None),
+        Route::NoneThenGlobal => b.metric_recorder(None).metrics_recorder_global::<dyn metrics_024::Recorder>(),
+    };
+    let stream = GateStream { shared: gate.clone(), gated: true };
+    let (handle, join) = match kind {
+        Kind::Typed => {
+            let (q, j) = b.build::<IdEntry>(stream);
+            (Handle::Typed(q), j)
+        }
+        Kind::Boxed => {
+            let (q, j) = b.build_boxed(stream);
+            (Handle::Boxed(q), j)
+        }
+    };
+    (handle, join, gate)
+}
+
+// ------------------------------------------------------------------------------------------------
+// a process-global tracing subscriber that counts the writer's error events (C01: the in-band report is
+// written only while NO subscriber is installed). Can be installed once per process, never removed.
+
+pub struct ErrorEventCounter(pub Arc<AtomicU64>);
+
+impl tracing::Subscriber for ErrorEventCounter {
+    fn enabled(&self, _: &tracing::Metadata<'_>) -> bool {
+        true
+    }
+    fn new_span(&self, _: &tracing::span::Attributes<'_>) -> tracing::span::Id {
+        tracing::span::Id::from_u64(1)
+    }
+    fn record(&self, _: &tracing::span::Id, _: &tracing::span::Record<'_>) {}
+    fn record_follows_from(&self, _: &tracing::span::Id, _: &tracing::span::Id) {}
+    fn event(&self, e: &tracing::Event<'_>) {
+        let m = e.metadata();
+        if *m.level() == tracing::Level::ERROR && m.file().map(|f| f.ends_with("background.rs")).unwrap_or(false) {
+            self.0.fetch_add(1, Ordering::SeqCst);
+        }
+    }
+    fn enter(&self, _: &tracing::span::Id) {}
+    fn exit(&self, _: &tracing::span::Id) {}
 }
